@@ -45,7 +45,7 @@ def reg(pid, units, explanation, assumptions=(), level_text='', level_note='', t
 
 NOT_BUILT = 'planned unit not built (DESIGN.md section 8): no contract on this code is discharged yet, so the property is not claimed'
 NOT_APPLICABLE = {
-    'C02': NOT_BUILT, 'C08': NOT_BUILT, 
+    'C02': NOT_BUILT, 
     'C15': NOT_BUILT,
     'C03': 'partition refinement is written as closure chains over BTreeMap<StateID, BTreeMap<CharClassID, Vec<StateID>>>; Verus cannot ingest it without a rewrite that would be a model, and the Kani stand-in did not terminate at 3 states x 2 classes (25 min, 5.7 GB)',
     'C14': 'concurrency: Kani has no thread support and Verus would need its own permission types in place of RwLock/LazyLock/Arc (a rewrite, i.e. a model)',
@@ -102,3 +102,10 @@ reg('C13', ['u_cache'],
      'derived Hash/Eq/Clone of ScannerMode, Pattern, Lookahead are field-wise and obey vstd key model; Vec<T>: Borrow<[T]> lookups compare element-wise (axiom_slice_key)',
      'ScannerBuilder::build / SimpleScannerBuilder::build (lock + get) are not under contract'],
     technique='Verus function contract + data-structure invariant on the cache map; derive-presence check')
+
+reg('C08', ['u_class'],
+    'membership in a bracketed class is the boolean combination of its items, for every char and every nesting depth: literals (only themselves), ranges (inclusive), nested classes, union, && -- ~~ and negation at item, bracket and binary-operator level, by structural recursion over the imported regex_syntax AST; named items (\\d \\s \\w, [:alpha:], \\p{..}) are uninterpreted leaves that contribute exactly the set they denote alone',
+    ['the MatchFn wrapper (Box<dyn Fn(char)->bool>, new/inner) is trusted: `x.inner()(c)` is read as the value of the boxed closure',
+     'NOT decided: the ASCII facts about \\d \\s \\w (they are statements about char::is_numeric/is_whitespace/is_alphanumeric and seshat tables) and `.` as a top-level Dot node (MatchFunction::try_from(&Ast) is not under contract)',
+     'the [:class:] arm, TryFrom<&ClassUnicode> and TryFrom<&ClassPerl> are trusted leaves', 'regex_syntax::ast types are what the crate (0.8.x in the offline registry) declares'],
+    technique='Verus function contracts by structural recursion over the imported AST; closure contracts generated from closure bodies')
